@@ -527,6 +527,7 @@ Lemma Thr_rmdir : forall fuel p, Thr o K (rmdir_parents fuel p).
 Proof.
   induction fuel as [|k IH]; intros p; cbn [rmdir_parents]; [apply Thr_ret|].
   destruct (parent p) as [[|c d]|]; try apply Thr_ret.
+  destruct (str_eqb (c :: d) [46%N]); [apply Thr_ret|].
   apply Thr_perform_bind. intros [e|]; [|left; apply IH]. destruct e; try (right; reflexivity); left; apply Thr_ret.
 Qed.
 
